@@ -7,6 +7,7 @@ with an AnalysisError (exit 2), never a guess.  No path conditions, no solver.""
 from __future__ import annotations
 
 import ast
+import collections.abc
 import itertools
 
 import sympy as sp
@@ -306,6 +307,28 @@ def explore_branches(run, limit=32):
     return results
 
 
+class _ViewCells(collections.abc.MutableMapping):
+    """cells of a reshaped view: reads and writes go to the cells of the array it was taken from"""
+
+    def __init__(self, base, fwd):
+        self.base, self.fwd = base, fwd
+
+    def __getitem__(self, k):
+        return self.base.cells[self.fwd[k]]
+
+    def __setitem__(self, k, v):
+        self.base.cells[self.fwd[tuple(k)]] = v
+
+    def __delitem__(self, k):
+        del self.base.cells[self.fwd[k]]
+
+    def __iter__(self):
+        return (k for k, s_ in self.fwd.items() if s_ in self.base.cells)
+
+    def __len__(self):
+        return sum(1 for _ in self)
+
+
 class ArrV:
     """numpy array whose trailing axes have constant sizes (e.g. (..., 6, 6)); `batch` leading
     axes are symbolic grid axes.  Cells default to `fill`."""
@@ -574,6 +597,8 @@ class Ev:
             return BoundLib("numpy.conj", v)
         if isinstance(v, ArrV) and name == "reshape":
             return BoundLib("numpy.reshape", v)
+        if isinstance(v, ArrV) and name in ("real", "imag"):
+            return LIB["numpy." + name](self, [v], {}, node, mod)
         if isinstance(v, ArrV) and name == "setflags":
             return BoundLib("ndarray.setflags", v)
         if isinstance(v, ArrV) and name == "tobytes":
@@ -1314,6 +1339,23 @@ class Ev:
         if isinstance(base, ArrV):
             items = idx.items if isinstance(idx, Tup) and idx.kind != "list" else [idx]
             items = [_as_index(i) for i in items]
+            if any(i is None for i in items) and base.batch == 0 and not any(i is Ellipsis for i in items):
+                # numpy.newaxis: index without it, then insert the axes of length one where they were asked for
+                rest = [i for i in items if i is not None]
+                res = self.subscript(base, Tup(rest, "tuple"), n, mod) if rest else base
+                if not isinstance(res, ArrV):
+                    res = ArrV(0, (), cells={(): res})
+                shape, src_axes = [], list(res.shape)
+                for i in items:
+                    if i is None:
+                        shape.append(1)
+                    elif isinstance(i, (SliceV, Tup)):
+                        shape.append(src_axes.pop(0))
+                shape += src_axes
+                out = ArrV(0, shape, res.fill)
+                for key_s, key_d in zip(itertools.product(*[range(d) for d in res.shape]), itertools.product(*[range(d) for d in shape])):
+                    out.cells[key_d] = res.get(key_s)
+                return out
             paired = _paired_fancy(base, items, self, n, mod)
             if paired is not None:
                 out = ArrV(base.batch, (len(paired),), base.fill, batch_last=base.batch_last)
@@ -1743,6 +1785,15 @@ class Ev:
     def s_AugAssign(self, st, env, mod):
         cur = self.eval(st.target, env, mod)
         v = self.binop(st.op, cur, self.eval(st.value, env, mod), st, mod)
+        if isinstance(cur, ArrV) and isinstance(v, ArrV) and v is not cur and v.shape == cur.shape and v.batch == cur.batch and v.batch_last == cur.batch_last \
+                and not isinstance(st.op, ast.MatMult) and isinstance(st.target, ast.Name):
+            # an augmented assignment to an array works in place: every other name bound to it (and the array a view was taken from) sees it
+            for key in itertools.product(*[range(d) for d in cur.shape]):
+                cur.cells[key] = v.get(key)
+            if not isinstance(cur.cells, _ViewCells):
+                cur.fill = v.fill
+            self.epoch += 1
+            return
         self.assign(st.target, v, env, mod)
 
     def assign(self, t, v, env, mod):
@@ -2355,12 +2406,26 @@ def lib_expm1(ev, a, k, n, mod):
     return sp.exp(as_sym(a[0])) - 1
 
 
+def _cellwise(fn, ev, a, n, mod):
+    x = a[0]
+    if isinstance(x, Tup) and x.items and all(is_sym(i) and not isinstance(i, bool) for i in x.items):
+        x = ArrV(0, (len(x.items),), cells={(j,): i for j, i in enumerate(x.items)})
+    if isinstance(x, ArrV):
+        out = ArrV(x.batch, x.shape, fill=fn(as_sym(x.fill)), batch_last=x.batch_last)
+        for key in itertools.product(*[range(d) for d in x.shape]):
+            out.cells[key] = fn(as_sym(x.get(key)))
+        return out
+    return None
+
+
 def lib_log(ev, a, k, n, mod):
-    return sp.log(as_sym(a[0]))
+    r = _cellwise(sp.log, ev, a, n, mod)
+    return sp.log(as_sym(a[0])) if r is None else r
 
 
 def lib_sqrt(ev, a, k, n, mod):
-    return sp.sqrt(as_sym(a[0]))
+    r = _cellwise(sp.sqrt, ev, a, n, mod)
+    return sp.sqrt(as_sym(a[0])) if r is None else r
 
 
 def lib_prod(ev, a, k, n, mod):
@@ -4390,8 +4455,8 @@ def lib_reshape(ev, a, k, n, mod):
     out = ArrV(x.batch, tuple(dims), x.fill)
     src = list(itertools.product(*[range(d) for d in x.shape]))
     dst = list(itertools.product(*[range(d) for d in dims]))
-    for s_, d_ in zip(src, dst):
-        out.cells[d_] = x.get(s_)
+    # numpy returns a view of a contiguous array: in-place products on the result change the original
+    out.cells = _ViewCells(x, dict(zip(dst, src)))
     if hasattr(x, "is_cond"):
         out.is_cond = x.is_cond
     return out
@@ -4459,6 +4524,60 @@ def lib_trace(ev, a, k, n, mod):
 
 lib_trace.kw = {"axis1", "axis2", "offset"}
 LIB.update({"numpy.trace": lib_trace})
+
+
+def lib_diag(ev, a, k, n, mod):
+    x = a[0]
+    if k or len(a) != 1 or not isinstance(x, ArrV) or x.batch:
+        raise ev.err("numpy.diag of something other than one small matrix or vector", n, mod)
+    if len(x.shape) == 2:
+        d = min(x.shape)
+        return ArrV(0, (d,), cells={(i,): x.get((i, i)) for i in range(d)})
+    if len(x.shape) == 1:
+        return ArrV(0, (x.shape[0], x.shape[0]), cells={(i, i): x.get((i,)) for i in range(x.shape[0])})
+    raise RaisedV("ValueError", f"{mod.rel}:{getattr(n, 'lineno', 0)}" if mod else "")
+
+
+lib_diag.kw = set()
+
+
+def lib_einsum(ev, a, k, n, mod):
+    """numpy.einsum with an explicit output on small arrays (no grid axes): the sum over the contracted constant axes"""
+    spec = a[0].replace(" ", "") if isinstance(a[0], str) else None
+    ops = list(a[1:])
+    if spec is None or "->" not in spec or "." in spec or k or not all(isinstance(o, ArrV) and not o.batch for o in ops):
+        raise ev.err("this numpy.einsum call is not modelled", n, mod)
+    ins, out_ = spec.split("->")
+    ins = ins.split(",")
+    if len(ins) != len(ops) or any(len(i) != len(o.shape) for i, o in zip(ins, ops)):
+        raise RaisedV("ValueError", f"{mod.rel}:{getattr(n, 'lineno', 0)}" if mod else "")
+    size = {}
+    for i, o in zip(ins, ops):
+        for ch, d in zip(i, o.shape):
+            if size.setdefault(ch, d) != d:
+                raise RaisedV("ValueError", f"{mod.rel}:{getattr(n, 'lineno', 0)}" if mod else "")
+    if any(ch not in size for ch in out_) or len(set(out_)) != len(out_):
+        raise RaisedV("ValueError", f"{mod.rel}:{getattr(n, 'lineno', 0)}" if mod else "")
+    summed = [ch for ch in size if ch not in out_]
+    out = ArrV(0, tuple(size[ch] for ch in out_))
+    for okey in itertools.product(*[range(size[ch]) for ch in out_]):
+        env_ = dict(zip(out_, okey))
+        tot = sp.Integer(0)
+        for skey in itertools.product(*[range(size[ch]) for ch in summed]):
+            env_.update(zip(summed, skey))
+            term = sp.Integer(1)
+            for i, o in zip(ins, ops):
+                term = term * as_sym(o.get(tuple(env_[ch] for ch in i)))
+            tot += term
+        out.cells[okey] = tot
+    return out if out_ else out.get(())
+
+
+lib_einsum.kw = set()
+LIB.setdefault("numpy.diag", lib_diag)
+LIB.setdefault("numpy.einsum", lib_einsum)
+LIB.setdefault("numpy.real", _elementwise(sp.re))
+LIB.setdefault("numpy.imag", _elementwise(sp.im))
 LIB.update({"numpy.transpose": lib_transpose, "ndarray.transpose": lib_transpose, "numpy.stack": lib_stack("stack"), "numpy.column_stack": lib_stack("column_stack"),
             "numpy.vstack": lib_stack("vstack"), "numpy.hstack": lib_stack("hstack"), "numpy.repeat": lib_repeat, "numpy.reshape": lib_reshape,
             "numpy.tile": lib_tile})
